@@ -1752,7 +1752,7 @@ PROPS = {
                 rule=GEN_RULE + "both error modes; all line-kind sequences ≤ L for error positions; non-trivial = rejected"),
     "C15": dict(modules=["C15"], run=run_C15, exhaustive=True,
                 rule="all ordered pairs (thorough: triples) of 12 state-perturbing documents through one Parser+TokenMatcher, sampled longer histories, random schedules of 2–3 concurrent parses gated at TokenScanner.read; non-trivial = any"),
-    "C16": dict(modules=["C16", "C16Doc"], run=run_C16, rule=GEN_RULE + "× {CRLF, final newline, trailing blanks, indentation, blank line, comment line} at sampled admissible positions; file loading; non-trivial = any"),
+    "C16": dict(modules=["C16", "C16Doc", "C16Doc2"], run=run_C16, rule=GEN_RULE + "× {CRLF, final newline, trailing blanks, indentation, blank line, comment line} at sampled admissible positions; file loading; non-trivial = any"),
     "C17": dict(modules=["C17"], run=run_C17, rule="sequences of 1–3 sources × 8 option combinations through one GherkinEvents; non-trivial = at least one envelope"),
     "C18": dict(modules=["C18", "C18Order", "C18Pure"], run=run_C18, translators=["parser_table"], exhaustive=True,
                 rule="all tag/comment/blank runs ≤ L before Examples/Scenario/Rule/unexpected lines as real text, sampled longer arrangements, corpus token listings; non-trivial = any"),
